@@ -450,11 +450,13 @@ def hand_seeds():
     # and inside their vectors
     try:
         from cryptoparser.ssh import key as sk
-        add(lambda: sk.SshCertExtensionSourceAddress(['10.0.0.0/8', '::1/128']))
-        add(lambda: sk.SshCertExtensionSourceAddress(['2001:db8::/32', '192.168.1.1/32', '10.0.0.0/8']))
+        import ipaddress
+        net = ipaddress.ip_network      # the field's domain: network objects, as the parser produces them
+        add(lambda: sk.SshCertExtensionSourceAddress([net('10.0.0.0/8'), net('::1/128')]))
+        add(lambda: sk.SshCertExtensionSourceAddress([net('2001:db8::/32'), net('192.168.1.1/32'), net('10.0.0.0/8')]))
         add(lambda: sk.SshCertExtensionForceCommand('ls -l /tmp'))
         add(lambda: sk.SshCertCriticalOptionVector([sk.SshCertExtensionForceCommand('ls'),
-                                                    sk.SshCertExtensionSourceAddress(['10.0.0.0/8', '::1/128'])]))
+                                                    sk.SshCertExtensionSourceAddress([net('10.0.0.0/8'), net('::1/128')])]))
         add(lambda: sk.SshCertExtensionVector([sk.SshCertExtensionPermitPTY(), sk.SshCertExtensionPermitUserRC(),
                                                sk.SshCertExtensionUnparsed('ext@verif.example', b'')]))
     except ImportError:
